@@ -83,13 +83,14 @@ def run(ctx):
     if ok:
         ctx.traces_validated += 1
 
-    nontrivial = sum(1 for x in lines if x["ev"] == "pkt" and nontriv(x))
+    nontrivial = sum(1 for x in lines if x["ev"] == "pkt" and nontriv(x)) + st["overlap_frames"]
     cov = {
         "samples": st["samples"],
         "evaluations": len(lines),
         "packets_encoded": st["packets"],
         "per_packet": st["per_packet"],
         "floordiv_cells": st["floordiv"],
+        "frames_of_overlapping_sends_judged": st["overlap_frames"],
         "encodes_of_a_reused_packet_object": st["reused_encodes"],
         "protocols": sorted(set(x["v"] for x in lines if x["ev"] == "pkt")),
         "distinct_nontrivial": nontrivial,
@@ -127,6 +128,12 @@ def report(ctx, bad):
         ctx.finding("floordiv:%s:%s" % (cls, sign), "mathutil.FloorDiv(%d, %d) = %d" % (a, b, bad["q"]), bad)
         return
     pkt, v, p = bad["pkt"], bad["v"], bad["shape"]
+    if bad["ev"] == "frame":
+        ctx.finding("frame:%s:overlapping-sends%s" % (pkt, ":compressed" if bad["thr"] >= 0 else ""),
+                    "%s sent through Encoder.WritePacket to connection %s while another connection was sent one in the "
+                    "middle of the send (after a compressed %s on a third connection): the connection did not receive "
+                    "the one frame meant for it (%s)" % (pkt, bad["conn"], pkt, bad["err"] or "wrong payload"), slim(bad))
+        return
     if bad["err"]:
         ctx.finding("%s:encode-error@%s" % (pkt, vclass(pkt, v)), "%s for protocol %d: Encode failed: %s (shape %s)"
                     % (pkt, v, bad["err"], p), slim(bad))
